@@ -110,6 +110,22 @@ func (b *Builder) build() {
 	for _, f := range b.late {
 		f()
 	}
+	// use-list order directives: function level, then module level
+	for _, f := range m.Funcs {
+		for _, u := range f.UseListOrders {
+			b.funcs[f].UseListOrders = append(b.funcs[f].UseListOrders, &ir.UseListOrder{Value: b.value(u.V), Indices: u.Indices})
+			b.call("UseListOrder{}")
+		}
+	}
+	for _, u := range m.UseListOrders {
+		if u.BB != nil {
+			b.M.UseListOrderBBs = append(b.M.UseListOrderBBs, &ir.UseListOrderBB{Func: b.funcs[u.Fn], Block: b.blocks[u.BB], Indices: u.Indices})
+			b.call("UseListOrderBB{}")
+			continue
+		}
+		b.M.UseListOrders = append(b.M.UseListOrders, &ir.UseListOrder{Value: b.value(u.V), Indices: u.Indices})
+		b.call("UseListOrder{}")
+	}
 	// metadata bodies
 	for _, n := range m.MDs {
 		t := b.mds[n]
